@@ -98,7 +98,13 @@ SRC_SHAPES = [
     {"s1.csv": "Q1.Report.csv", "s2.csv": "q1.report.csv"},
     {"s1.csv": "s1.CSV"},
     {"s2.csv": "a-b_c.csv"},
+    {"s2.csv": "@hash"},   # a source file already named <sha256 of its content>.csv (e.g. a file taken from the store)
+    {"s1.csv": "@hash"},
 ]
+
+
+def actual_source(source, content):
+    return sha(CONTENTS[content].encode()) + ".csv" if source == "@hash" else source
 
 
 def strategy(tier):
@@ -212,6 +218,7 @@ def run_case(case, sb):
         for i, op in enumerate(ops):
             if op[0] == "add":
                 _, name, source, content = op
+                source = actual_source(source, content)
                 p = os.path.join(sb.root, "src", source)
                 with open(p, "wb") as f:
                     f.write(CONTENTS[content].encode())
@@ -230,6 +237,7 @@ def run_case(case, sb):
                 model.add(name, source, content)
             elif op[0] == "mutate":
                 _, source, content = op
+                source = actual_source(source, content)
                 p = os.path.join(sb.root, "src", source)
                 with open(p, "wb") as f:
                     f.write(CONTENTS[content].encode())
